@@ -7,6 +7,7 @@ import (
 	"net"
 	"net/http"
 	"net/http/httputil"
+	"strings"
 	"time"
 
 	"go.uber.org/zap"
@@ -99,6 +100,10 @@ func (p *HTTPProxy) ServeHTTPWithUpstream(
 		r = r.WithContext(ctx)
 	}
 
+	// The forward header must not be listed as a hop-by-hop header by the
+	// client, otherwise the reverse proxy drops it so the request could be
+	// forwarded again by the next node.
+	removeConnectionOption(r.Header, "x-piko-forward")
 	r.Header.Set("x-piko-forward", "true")
 
 	r = r.WithContext(context.WithValue(r.Context(), endpointContextKey, endpointID))
@@ -129,6 +134,29 @@ func (p *HTTPProxy) errorHandler(w http.ResponseWriter, _ *http.Request, err err
 		return
 	}
 	_ = errorResponse(w, http.StatusBadGateway, "upstream unreachable")
+}
+
+// removeConnectionOption removes the given option from the 'Connection'
+// header.
+func removeConnectionOption(h http.Header, option string) {
+	values := h.Values("Connection")
+	if len(values) == 0 {
+		return
+	}
+	h.Del("Connection")
+	for _, value := range values {
+		var options []string
+		for _, o := range strings.Split(value, ",") {
+			o = strings.TrimSpace(o)
+			if o == "" || strings.EqualFold(o, option) {
+				continue
+			}
+			options = append(options, o)
+		}
+		if len(options) > 0 {
+			h.Add("Connection", strings.Join(options, ", "))
+		}
+	}
 }
 
 type errorMessage struct {
